@@ -39,6 +39,113 @@ def padded_array(src, name):
     return vals
 
 
+# ---- C20-M3: the release structure of blinded_modexp as a program ----
+CALL_RE = re.compile(
+    r"(?P<binalloc>(?P<bdst>\w+)\s*=\s*BN_bin2bn\s*\(\s*(?P<bsrc>\w+))"
+    r"|(?P<newalloc>(?P<ndst>\w+)\s*=\s*BN_new\s*\(\s*\))"
+    r"|(?P<ctxnew>\w+\s*=\s*BN_CTX_new\s*\(\s*\))"
+    r"|(?P<op>\b(?:BN_add|BN_sub|BN_mod_exp|BN_mod_mul|BN_set_word)\s*\((?P<oargs>[^()]*)\))"
+    r"|(?P<entropy>\bcrypto_entropy_read\s*\()"
+    r"|(?P<clear>\bBN_clear_free\s*\(\s*(?P<cv>\w+)\s*\))"
+    r"|(?P<free>\bBN_free\s*\(\s*(?P<fv>\w+)\s*\))"
+    r"|(?P<ctxfree>\bBN_CTX_free\s*\()"
+    r"|(?P<goto>\bgoto\s+err(?P<glbl>\d+)\s*;)"
+    r"|(?P<label>\berr(?P<llbl>\d+)\s*:)"
+    r"|(?P<ret0>\breturn\s*\(\s*0\s*\)\s*;)"
+    r"|(?P<other>\bBN_\w+\s*\()")
+
+SECRET_ARRAYS = ("priv", "blinding")
+HARMLESS_BN = ("BN_num_bits", "BN_num_bytes", "BN_bn2bin")
+
+
+def wipe_program(body, params):
+    """body of blinded_modexp (comments stripped) -> (steps, success releases, ladder) as Coq text.
+    params: BIGNUM parameter names, numbered first."""
+    ids = {p: i for i, p in enumerate(params)}
+    body = re.sub(r"\bBN_num_bytes\b", "BN_num_bits", body)      # macro over BN_num_bits
+
+    def vid(name):
+        name = name.strip()
+        if name not in ids:
+            raise NotFound("blinded_modexp: bignum variable %s used before its allocation" % name)
+        return ids[name]
+
+    steps, pending, succ, ladder = [], [], [], []
+    phase = "main"
+    for m in CALL_RE.finditer(body):
+        k = m.lastgroup if m.lastgroup in ("binalloc", "newalloc", "ctxnew", "op", "entropy", "clear", "free",
+                                           "ctxfree", "goto", "label", "ret0", "other") else None
+        # lastgroup may be an inner group: resolve by testing the outer ones
+        for g in ("binalloc", "newalloc", "ctxnew", "op", "entropy", "clear", "free", "ctxfree", "goto", "label", "ret0", "other"):
+            if m.group(g):
+                k = g
+                break
+        if k == "other":
+            fn = m.group("other").split("(")[0].strip()
+            if fn in HARMLESS_BN:
+                continue
+            raise NotFound("blinded_modexp: unrecognised OpenSSL call %s" % fn)
+        if phase == "main":
+            if k == "binalloc":
+                d = m.group("bdst")
+                if d in ids:
+                    raise NotFound("blinded_modexp: %s allocated twice" % d)
+                ids[d] = len(ids)
+                pending.append("SAllocBin %d %s" % (ids[d], "true" if m.group("bsrc") in SECRET_ARRAYS else "false"))
+            elif k == "newalloc":
+                d = m.group("ndst")
+                if d in ids:
+                    raise NotFound("blinded_modexp: %s allocated twice" % d)
+                ids[d] = len(ids)
+                pending.append("SAllocNew %d" % ids[d])
+            elif k == "ctxnew":
+                pending.append("SCtxNew")
+            elif k == "op":
+                args = [a.strip() for a in m.group("oargs").split(",")]
+                bn = [a for a in args if a in ids]
+                if not bn or bn[0] != args[0]:
+                    raise NotFound("blinded_modexp: destination of %s is not a known bignum" % m.group("op")[:30])
+                pending.append("SOp %d [%s]" % (vid(bn[0]), "; ".join(str(vid(a)) for a in bn[1:])))
+            elif k == "entropy":
+                pending.append("SEntropy")
+            elif k == "goto":
+                lbl = int(m.group("glbl"))
+                if not pending:
+                    pending.append("SCheck")
+                steps += ["%s %d" % (p, lbl) for p in pending]
+                pending = []
+            elif k in ("clear", "free", "ctxfree"):
+                if pending:
+                    raise NotFound("blinded_modexp: a fallible call without a goto before a release")
+                succ.append("RClear %d" % vid(m.group("cv")) if k == "clear" else
+                            "RFree %d" % vid(m.group("fv")) if k == "free" else "RCtxFree")
+            elif k == "ret0":
+                if pending:
+                    raise NotFound("blinded_modexp: a fallible call without a goto before return (0)")
+                phase = "err"
+            elif k == "label":
+                raise NotFound("blinded_modexp: label before return (0)")
+        else:
+            if k == "label":
+                ladder.append((int(m.group("llbl")), []))
+            elif k in ("clear", "free", "ctxfree"):
+                if not ladder:
+                    raise NotFound("blinded_modexp: release before the first error label")
+                ladder[-1][1].append("RClear %d" % vid(m.group("cv")) if k == "clear" else
+                                     "RFree %d" % vid(m.group("fv")) if k == "free" else "RCtxFree")
+            elif k in ("goto", "ret0", "binalloc", "newalloc", "ctxnew", "op", "entropy"):
+                raise NotFound("blinded_modexp: unexpected statement in the error ladder")
+    if phase != "err" or not ladder:
+        raise NotFound("blinded_modexp: return (0) / error ladder not found")
+    out = "From LCP Require Import Crypto.DhWipeDefs.\n\n"
+    out += "Definition dh_bm_steps : list wstep :=\n  [" + ";\n   ".join(steps) + "].\n"
+    out += "Definition dh_bm_success_releases : list wrel :=\n  [" + "; ".join(succ) + "].\n"
+    out += "Definition dh_bm_ladder : list (nat * list wrel) :=\n  [" + ";\n   ".join(
+        "(%d, [%s])" % (l, "; ".join(r)) for l, r in ladder) + "].\n"
+    out += "Definition dh_bm_nvars : nat := %d.\n" % len(ids)
+    return out
+
+
 def extract(repo):
     dh = read(repo, "crypto/crypto_dh.c")
     dhh = read(repo, "crypto/crypto_dh.h")
@@ -103,4 +210,5 @@ def extract(repo):
                      one_int(r"drbg\.reseed_counter\s*\+=\s*([^;]+?)\s*;", gen, "generate: reseed_counter += n"))
     out += coq_def_N("drbg_block_step",
                      one_int(r"bufpos\s*\+=\s*([^)]+?)\s*\)", gen, "generate: bufpos += n"))
-    return {"Repo_dhdrbg.v": out}
+    wipe = HEADER + wipe_program(bm, ["a"])
+    return {"Repo_dhdrbg.v": out, "Repo_dhwipe.v": wipe}
